@@ -119,3 +119,10 @@ func init() {
 		NotDecided:  "the PlusCal back end and the BEGIN TRANSLATION text; run-time semantics of the distsys library calls (C01/C03/C04); regroupings that keep the same tokens in the same order; the Scala compiler itself.",
 		Assumptions: append([]string{"the re-implementation of MPCalNormalizePass and the inverted templates in checker/specmatch are faithful to pgo/src/trans (validated by agreement on all checked-in pairs)"}, commonAssumptions...)})
 }
+
+func init() {
+	prop(&PropInfo{ID: "C08", Level: "other",
+		Explanation: "Decides one structural clause outside the generated code that the Raft safety invariants need: in raftkvs/bootstrap each of the 12 per-server state variables (state, currentTerm, log, commitIndex, nextIndex, matchIndex, votedFor, votesResponded, votesGranted, leader, sm, smDomain) is bound in all five archetype contexts of a server to MakeLocalShared() of one LocalSharedManager created once per server (RAFT-WIRING), and that shared cell is accessed under strict two-phase locking with a capacity-1 lock (LS-2PL, LS-CAP1). If e.g. votedFor were per-archetype, a server could vote for two candidates in one term. Fidelity of raftkvs.go to raftkvs.tla is reported under C02.",
+		NotDecided:  "the invariants themselves (ElectionSafety, LogMatching, LeaderCompleteness, StateMachineSafety, LeaderAppendOnly) over all schedules: they need the spec-level argument (model checking) plus C02 fidelity; nothing here decides them.",
+		Assumptions: commonAssumptions})
+}
